@@ -68,7 +68,7 @@ func asFieldSel(info *types.Info, e ast.Expr) (fieldSel, bool) {
 // isField reports whether e selects field owner.field.
 func isField(info *types.Info, e ast.Expr, owner, field string) bool {
 	fs, ok := asFieldSel(info, e)
-	return ok && fs.Owner == owner && fs.Field.Name() == field
+	return ok && fs.Owner == owner && canonFieldName(fs.Field) == field
 }
 
 // fieldStore is an assignment whose LHS selects a struct field.
